@@ -10,6 +10,7 @@ package malloc
 import (
 	"fmt"
 	"os"
+	"strings"
 	"sync/atomic"
 	"testing"
 	"time"
@@ -33,16 +34,158 @@ func (p *Heap) zzReset(t *testing.T) {
 	p.usedMap = map[int32]HeapBlock{}
 }
 
+// zzCheckHeap: the structural part of the property after an operation: the bump pointer lies inside linear
+// memory; every size-class list holds at most cap blocks of its class; the general list is circular through
+// its head and address ordered; walking the block headers from the first block to the bump pointer visits
+// only well-formed blocks, each of which is either live or on exactly one free list, and ends exactly at
+// the bump pointer (every byte belongs to exactly one live or free block).
+func zzCheckHeap(t *testing.T, h *Heap, live []zzLive, desc string) {
+	mem := h.wazeroModule.Memory()
+	rd := func(a int32) int32 {
+		v, ok := mem.ReadUint32Le(h.wazeroCtx, uint32(a))
+		if !ok {
+			t.Fatalf("COUNTEREXAMPLE %s: the allocator's structures point outside linear memory (address %d)", desc, a)
+		}
+		return int32(v)
+	}
+	base, hp, top := h.Global__heap_base(), h.Global__heap_ptr(), h.Global__heap_top()
+	if int64(hp) > int64(mem.Size(h.wazeroCtx)) || hp > top {
+		t.Fatalf("COUNTEREXAMPLE %s: bump pointer %d beyond heap top %d / memory size %d", desc, hp, top, mem.Size(h.wazeroCtx))
+	}
+	first := base + KFreeListHeadSize
+	isBlock := func(b int32) bool { return b >= first && b%8 == 0 && int64(b)+KBlockHeadSize <= int64(hp) }
+	onList := map[int32]string{}
+	for i, cls := range []int32{24, 32, 48, 80} {
+		hdr := base + int32(8*i)
+		n := rd(hdr)
+		if n < 0 || n > h.Global__heap_lfixed_cap() {
+			t.Fatalf("COUNTEREXAMPLE %s: free list l%d claims %d blocks (capacity %d)", desc, cls, n, h.Global__heap_lfixed_cap())
+		}
+		b := rd(hdr + 4)
+		for k := int32(0); k < n; k++ {
+			if !isBlock(b) {
+				t.Fatalf("COUNTEREXAMPLE %s: free list l%d contains %d, not a block of the heap", desc, cls, b)
+			}
+			if w, dup := onList[b]; dup {
+				t.Fatalf("COUNTEREXAMPLE %s: block %d is on free list l%d and on %s", desc, b, cls, w)
+			}
+			onList[b] = fmt.Sprintf("l%d", cls)
+			if sz := rd(b); sz != cls {
+				t.Fatalf("COUNTEREXAMPLE %s: block %d of size %d is on free list l%d", desc, b, sz, cls)
+			}
+			b = rd(b + 4)
+		}
+	}
+	head := base + 32
+	prev := head
+	for b, steps := rd(head+4), 0; b != head; b, steps = rd(b+4), steps+1 {
+		if steps > 1<<16 || !isBlock(b) {
+			t.Fatalf("COUNTEREXAMPLE %s: the general free list reaches %d (after %d), not a block of the heap / does not return to its head", desc, b, prev)
+		}
+		if b <= prev {
+			t.Fatalf("COUNTEREXAMPLE %s: the general free list is not address ordered: %d after %d", desc, b, prev)
+		}
+		if w, dup := onList[b]; dup {
+			t.Fatalf("COUNTEREXAMPLE %s: block %d is on the general free list and on %s", desc, b, w)
+		}
+		onList[b] = "l128"
+		prev = b
+	}
+	liveAt := map[int32]int32{}
+	for _, l := range live {
+		liveAt[l.ptr] = l.size
+	}
+	nLive, nFree := 0, 0
+	a := first
+	for a < hp {
+		sz := rd(a)
+		if sz < 0 || sz%8 != 0 || int64(a)+KBlockHeadSize+int64(sz) > int64(hp) {
+			t.Fatalf("COUNTEREXAMPLE %s: block at %d has size %d (bump pointer %d): the blocks do not tile the heap", desc, a, sz, hp)
+		}
+		req, isLive := liveAt[a+KBlockHeadSize]
+		where, isFree := onList[a]
+		switch {
+		case isLive && isFree:
+			t.Fatalf("COUNTEREXAMPLE %s: the live block %d is also on free list %s", desc, a+KBlockHeadSize, where)
+		case !isLive && !isFree:
+			t.Fatalf("COUNTEREXAMPLE %s: block %d (size %d) is neither live nor on a free list", desc, a, sz)
+		case isLive:
+			nLive++
+			if sz < req {
+				t.Fatalf("COUNTEREXAMPLE %s: live block %d has size %d, requested %d", desc, a+KBlockHeadSize, sz, req)
+			}
+		default:
+			nFree++
+		}
+		a += KBlockHeadSize + sz
+	}
+	if a != hp || nLive != len(live) || nFree != len(onList) {
+		t.Fatalf("COUNTEREXAMPLE %s: walking the blocks ends at %d (bump pointer %d) with %d live / %d free blocks, expected %d / %d", desc, a, hp, nLive, nFree, len(live), len(onList))
+	}
+}
+
+// zzOp: one operation of a history: malloc of a fixed size, malloc of a size relative to the room left
+// below the heap top (top - bump pointer - block header + rel), or free of the idx-th live block.
+type zzOp struct {
+	kind int // 0 malloc(size), 1 malloc(room + rel), 2 free(#idx)
+	size int32
+	idx  int
+}
+
+type zzFamily struct {
+	name   string
+	cfgs   []*Config
+	prefix []int32 // allocations made before the explored part of the history
+	ops    []zzOp
+	depth  int
+}
+
 func TestVerifBounded(t *testing.T) {
+	thorough := os.Getenv("VERIF_TIER") == "thorough"
 	depth := 4
-	if os.Getenv("VERIF_TIER") == "thorough" {
+	if thorough {
 		depth = 5
 	}
-	sizes := []int32{0, 1, 8, 16, 24, 25, 32, 48, 80, 81, 128, 1000, 70000}
-	cfgs := []*Config{
+	mallocs := func(sizes ...int32) []zzOp {
+		var out []zzOp
+		for _, n := range sizes {
+			out = append(out, zzOp{kind: 0, size: n})
+		}
+		return out
+	}
+	frees := func(n int) []zzOp {
+		var out []zzOp
+		for i := 0; i < n; i++ {
+			out = append(out, zzOp{kind: 2, idx: i})
+		}
+		return out
+	}
+	rels := func(ds ...int32) []zzOp {
+		var out []zzOp
+		for _, d := range ds {
+			out = append(out, zzOp{kind: 1, size: d})
+		}
+		return out
+	}
+	cfg := func(pages, max, base, cap int32) *Config {
+		return &Config{MemoryPages: pages, MemoryPagesMax: max, StackPtr: 100, HeapBase: base, HeapLFixedCap: cap}
+	}
+	std := []*Config{
 		{MemoryPages: 1, MemoryPagesMax: 2, StackPtr: DefaultStackPtr, HeapBase: DefaultHeapBase, HeapLFixedCap: 0},
 		{MemoryPages: 1, MemoryPagesMax: 2, StackPtr: DefaultStackPtr, HeapBase: DefaultHeapBase, HeapLFixedCap: 1},
 		{MemoryPages: 1, MemoryPagesMax: 3, StackPtr: DefaultStackPtr, HeapBase: DefaultHeapBase, HeapLFixedCap: 100},
+	}
+	small := []*Config{cfg(1, 2, 1000, 0), cfg(1, 2, 1000, 1), cfg(1, 2, 1000, 2)}
+	families := []zzFamily{
+		// every short history over a spread of sizes
+		{"sizes", std, nil, append(mallocs(0, 1, 8, 16, 24, 25, 32, 48, 80, 81, 128, 1000, 70000), frees(3)...), depth},
+		// histories that start from a populated heap: reuse, split, coalescing and the overflow of the size-class lists
+		{"after 200,200,136,200,200", small, []int32{200, 200, 136, 200, 200}, append(mallocs(24, 136, 200, 400), frees(5)...), depth},
+		{"after 6 x 24", small, []int32{24, 24, 24, 24, 24, 24}, append(mallocs(24, 48, 56, 136), frees(5)...), depth},
+		{"after 32,80,32,80,48,48", small, []int32{32, 80, 32, 80, 48, 48}, append(mallocs(32, 80, 48, 112), frees(5)...), depth},
+		// requests sized to end at, just before and just behind the current heap top and the next page boundaries
+		{"page boundaries", []*Config{cfg(1, 3, 1000, 0), cfg(1, 3, 1000, 2), cfg(1, 2, 4096, 1), cfg(2, 4, 65536, 0)}, nil,
+			append(append(rels(-24, -16, -8, 0, 8, 16, 24, 65536-16, 65536-8, 65536, 65536+8, 65536+16, 2*65536-8, 2*65536, 2*65536+8), mallocs(8, 1000)...), frees(2)...), depth - 1},
 	}
 	done := make(chan struct{})
 	defer close(done)
@@ -62,38 +205,39 @@ func TestVerifBounded(t *testing.T) {
 	}()
 	cases, nontrivial := 0, 0
 	var samples []string
-	for ci, cfg := range cfgs {
-		h := NewHeap(cfg)
-		// operations: 0..len(sizes)-1 = malloc(sizes[op]); len(sizes)+i = free of the i-th live block (i < 3)
-		nops := len(sizes) + 3
-		seq := make([]int, 0, depth)
-		var run func()
-		run = func() {
-			if len(seq) > 0 {
-				cases++
-				h.zzReset(t)
-				var live []zzLive
-				desc := fmt.Sprintf("config %d (cap %d, max pages %d):", ci, cfg.HeapLFixedCap, cfg.MemoryPagesMax)
-				mallocsOK, frees := 0, 0
-				defer func() {
-					// non-trivial: at least two successful allocations, or an allocation after a free
-					if mallocsOK >= 2 || (frees > 0 && mallocsOK >= 1) {
-						nontrivial++
-						if len(samples) < 6 && (nontrivial%9973 == 1) {
-							samples = append(samples, desc)
+	var bounds []string
+	for _, fam := range families {
+		bounds = append(bounds, fmt.Sprintf("%s: %d operations to choose from, depth %d, %d configurations", fam.name, len(fam.ops), fam.depth, len(fam.cfgs)))
+		for ci, cfg := range fam.cfgs {
+			h := NewHeap(cfg)
+			seq := make([]int, 0, fam.depth)
+			var run func()
+			run = func() {
+				if len(seq) > 0 {
+					cases++
+					h.zzReset(t)
+					var live []zzLive
+					desc := fmt.Sprintf("[%s] config %d (heap base %d, cap %d, pages %d..%d):", fam.name, ci, cfg.HeapBase, cfg.HeapLFixedCap, cfg.MemoryPages, cfg.MemoryPagesMax)
+					mallocsOK, nfrees := 0, 0
+					defer func() {
+						// non-trivial: at least two successful allocations, or an allocation after a free
+						if mallocsOK >= 2 || (nfrees > 0 && mallocsOK >= 1) {
+							nontrivial++
+							if len(samples) < 8 && (nontrivial%9973 == 1) {
+								samples = append(samples, desc)
+							}
 						}
-					}
-				}()
-				for step, op := range seq {
-					if op < len(sizes) {
-						n := sizes[op]
+					}()
+					step := 0
+					doMalloc := func(n int32) {
+						step++
 						desc += fmt.Sprintf(" malloc(%d)", n)
 						zzCur.Store(desc)
 						started.Store(time.Now().UnixNano())
 						ptr := h.Malloc(n)
 						started.Store(0)
 						if ptr == 0 {
-							continue
+							return
 						}
 						mallocsOK++
 						mem := h.wazeroModule.Memory()
@@ -121,43 +265,65 @@ func TestVerifBounded(t *testing.T) {
 						}
 						mem.Write(h.wazeroCtx, uint32(ptr), buf)
 						live = append(live, zzLive{ptr, n, pat})
-					} else {
-						i := op - len(sizes)
-						if i >= len(live) {
-							return // not a valid sequence (nothing to free there)
-						}
-						desc += fmt.Sprintf(" free(#%d=%d)", i, live[i].ptr)
-						zzCur.Store(desc)
-						started.Store(time.Now().UnixNano())
-						h.Free(live[i].ptr)
-						started.Store(0)
-						live = append(live[:i:i], live[i+1:]...)
-						frees++
 					}
-					mem := h.wazeroModule.Memory()
-					for _, l := range live {
-						b, ok := mem.Read(h.wazeroCtx, uint32(l.ptr), uint32(l.size))
-						if !ok {
-							t.Fatalf("COUNTEREXAMPLE %s: live block at %d (size %d) is outside linear memory", desc, l.ptr, l.size)
-						}
-						for _, x := range b {
-							if x != l.pat {
-								t.Fatalf("COUNTEREXAMPLE %s: contents of the live block at %d (size %d) changed", desc, l.ptr, l.size)
+					after := func() {
+						zzCheckHeap(t, h, live, desc)
+						mem := h.wazeroModule.Memory()
+						for _, l := range live {
+							b, ok := mem.Read(h.wazeroCtx, uint32(l.ptr), uint32(l.size))
+							if !ok {
+								t.Fatalf("COUNTEREXAMPLE %s: live block at %d (size %d) is outside linear memory", desc, l.ptr, l.size)
+							}
+							for _, x := range b {
+								if x != l.pat {
+									t.Fatalf("COUNTEREXAMPLE %s: contents of the live block at %d (size %d) changed", desc, l.ptr, l.size)
+								}
 							}
 						}
 					}
+					for _, n := range fam.prefix {
+						doMalloc(n)
+					}
+					after()
+					mallocsOK = 0
+					for _, oi := range seq {
+						op := fam.ops[oi]
+						switch op.kind {
+						case 0:
+							doMalloc(op.size)
+						case 1:
+							n := int64(h.Global__heap_top()) - int64(h.Global__heap_ptr()) - KBlockHeadSize + int64(op.size)
+							if n <= 0 || n > 1<<30 {
+								return // not a request of the explored family
+							}
+							doMalloc(int32(n))
+						case 2:
+							if op.idx >= len(live) {
+								return // not a valid history (nothing to free there)
+							}
+							step++
+							desc += fmt.Sprintf(" free(#%d=%d)", op.idx, live[op.idx].ptr)
+							zzCur.Store(desc)
+							started.Store(time.Now().UnixNano())
+							h.Free(live[op.idx].ptr)
+							started.Store(0)
+							live = append(live[:op.idx:op.idx], live[op.idx+1:]...)
+							nfrees++
+						}
+						after()
+					}
+				}
+				if len(seq) == fam.depth {
+					return
+				}
+				for op := range fam.ops {
+					seq = append(seq, op)
+					run()
+					seq = seq[:len(seq)-1]
 				}
 			}
-			if len(seq) == depth {
-				return
-			}
-			for op := 0; op < nops; op++ {
-				seq = append(seq, op)
-				run()
-				seq = seq[:len(seq)-1]
-			}
+			run()
 		}
-		run()
 	}
 	sj := "["
 	for i, x := range samples {
@@ -167,5 +333,5 @@ func TestVerifBounded(t *testing.T) {
 		sj += fmt.Sprintf("%q", x)
 	}
 	sj += "]"
-	fmt.Printf("BOUNDED {\"cases\": %d, \"nontrivial\": %d, \"samples\": %s, \"bound\": \"all sequences of at most %d operations (malloc of a size in {0,1,8,16,24,25,32,48,80,81,128,1000,70000}, free of one of the first three live blocks) under 3 configurations (fixed-list capacity 0, 1, 100; 2-3 memory pages)\"}\n", cases, nontrivial, sj, depth)
+	fmt.Printf("BOUNDED {\"cases\": %d, \"nontrivial\": %d, \"samples\": %s, \"bound\": \"every history of at most the stated depth in each family (malloc of a size from the family's set, or of a size relative to the room below the heap top; free of one of the first live blocks), after every operation: alignment, bounds, size, no overlap, contents of live blocks, free lists well-formed, blocks tile the heap; families: %s\"}\n", cases, nontrivial, sj, strings.Join(bounds, "; "))
 }
